@@ -1496,6 +1496,35 @@ func genC07(c *gctx, f2 bool) {
 // derived through join (labels of the T's vary: named A / another name / type-only).
 func genC05Diamond(c *gctx) {
 	r := c.r
+	if r.chance(30) {
+		// interface family: the required interface value is only derivable through a converter
+		// whose DECLARED result type is another interface implementing it (I1 for I0), or a
+		// concrete implementation; cyclic single-input converters around it
+		src := []int{2, 4, 5}[r.intn(3)]
+		res := []int{11, 11, 1, 0, 3}[r.intn(5)] // I1, T1, T0, T3 all implement I0
+		p := Field{Ty: 10}
+		if r.chance(50) {
+			p.Name = nameAlphabet[r.intn(len(nameAlphabet))]
+		}
+		ti := c.addFunc([]Field{p}, c.fields(FStruct, r.intn(2)), c.formFor([]Field{p}), FStruct)
+		out := Field{Ty: res}
+		cv := c.addFunc([]Field{{Ty: src}}, []Field{out}, FPos, c.formFor([]Field{out}))
+		back := c.addFunc([]Field{{Ty: res}}, []Field{{Ty: src}}, FPos, FPos)
+		for _, fi := range []int{ti, cv, back} {
+			c.sc.Funcs[fi].Once, c.sc.Funcs[fi].Err, c.sc.Funcs[fi].Built = false, false, false
+		}
+		opts := []Opt{{Kind: "typed", Vals: []*Val{c.val(src)}}}
+		convs := []int{cv}
+		if r.chance(50) {
+			convs = append(convs, back) // a cycle
+		}
+		opts = append(opts, c.convOpts(convs)...)
+		shuffleOpts(r, opts)
+		for i := 0; i < 3; i++ {
+			c.sc.Ops = append(c.sc.Ops, Op{Kind: "call", Target: ti, Opts: opts})
+		}
+		return
+	}
 	tys := append([]int(nil), concreteTys...)
 	for i := len(tys) - 1; i > 0; i-- {
 		j := r.intn(i + 1)
@@ -1553,6 +1582,45 @@ func genC05Diamond(c *gctx) {
 	shuffleOpts(r, opts)
 	for i := 0; i < 6; i++ { // six order tapes per scenario
 		c.sc.Ops = append(c.sc.Ops, Op{Kind: "call", Target: ti, Opts: opts})
+	}
+}
+
+// a built function (target, or the single converter) that fails on ONE call and works on the
+// calls before and after it: executions are numbered over the whole history, every call of
+// this scenario executes the same functions, so the k-th call fails exactly
+func genBuiltFailOnce(c *gctx) {
+	r := c.r
+	tin := c.fields(FStruct, 1+r.intn(2))
+	for !addressable(tin) {
+		tin = c.fields(FStruct, 1+r.intn(2))
+	}
+	tout := c.fields(FStruct, 1+r.intn(2))
+	for !addressable(tout) {
+		tout = c.fields(FStruct, 1+r.intn(2))
+	}
+	ti := c.addFunc(tin, tout, FStruct, FStruct)
+	d := c.sc.Funcs[ti]
+	d.Built, d.InForm, d.OutForm, d.Err, d.Once = true, FStruct, FStruct, true, false
+	var opts []Opt
+	for _, f := range tin {
+		opts = append(opts, c.exactOpt(f))
+	}
+	per := 1 // executions per call
+	failing := d
+	if r.chance(50) && len(tout) > 0 {
+		// the built function is a converter feeding an ordinary consumer
+		cons := c.addFunc([]Field{tout[0]}, nil, c.formFor([]Field{tout[0]}), FPos)
+		c.sc.Funcs[cons].Once, c.sc.Funcs[cons].Err, c.sc.Funcs[cons].Built = false, false, false
+		opts = append(opts, Opt{Kind: "convfunc", Fns: []int{ti}})
+		ti = cons
+		per = 2
+	}
+	k := r.intn(2) // the call that fails (0-based); the built function runs first in every call
+	n := k*per + 1
+	c.sc.Beh = []BehRow{{Fid: failing.ID, From: n + 1, Kind: 0}, {Fid: failing.ID, From: n, Kind: 1, Err: 900 + r.intn(6)}}
+	shuffleOpts(r, opts)
+	for i := 0; i < 4; i++ {
+		c.sc.Ops = append(c.sc.Ops, Op{Kind: "call", Target: ti, Opts: c.revalue(opts)})
 	}
 }
 
@@ -1647,7 +1715,15 @@ func init() {
 		}
 	}))
 	register(resolverStream("exact", func(c *gctx) { genCallScenario(c, 1) }))
-	register(resolverStream("built", func(c *gctx) { c.built = true; c.repSub = c.r.chance(30); genCallScenario(c, 0) }))
+	register(resolverStream("built", func(c *gctx) {
+		if c.r.chance(12) {
+			genBuiltFailOnce(c)
+			return
+		}
+		c.built = true
+		c.repSub = c.r.chance(30)
+		genCallScenario(c, 0)
+	}))
 	register(resolverStream("malformed", func(c *gctx) { genCallScenario(c, 2) }))
 	register(resolverStream("convert", genConvertScenario))
 	register(resolverStream("redefine", func(c *gctx) { genRedefineScenario(c, false) }))
